@@ -125,15 +125,20 @@ def fista_task(T, opt_strategy, sparse_X):
         fw = fit(wl)
         if T.prop != 'C17':
             return cs                     # the stop-value clause is C17's
+        glast = [c for c in calls if c[0] == 'gradient'][-1]          # the gradient evaluation the stop value is built from
+        gres = [L(v) for v in glast[2]]
+        # (A) that gradient is the gradient AT THE RETURNED POINT (polynomial identity in X, w: no uninterpreted function)
+        cs.append(('stop_crit<tol=>gradient-behind-the-stop-value-is-evaluated-at-the-returned-point', [stopped_on_tol],
+                   z3.And(*[glast[1][i] == fw[i] for i in range(2)])))
+        # (B) and the stop value is the score / fixed-point residual of the returned w with THAT gradient
         if opt_strategy == 'subdiff':
             last = [c for c in calls if c[0] == 'subdiff_distance'][-1]
-            cs.append(('stop_crit<tol=>score-evaluated-at-the-returned-w', [stopped_on_tol], z3.And(last[1][0] == wl[0], last[1][1] == wl[1])))
-            cs.append(('stop_crit<tol=>score-uses-the-gradient-at-the-returned-point', [stopped_on_tol],
-                       z3.And(*[last[2][j] == GR[j](*fw) for j in range(2)])))
+            cs.append(('stop_crit<tol=>score-evaluated-at-the-returned-w-with-the-last-gradient', [stopped_on_tol],
+                       z3.And(last[1][0] == wl[0], last[1][1] == wl[1], *[last[2][j] == gres[j] for j in range(2)])))
         else:
             last = [c for c in calls if c[0] == 'prox_vec'][-1]
-            cs.append(('stop_crit<tol=>fixed-point-residual-uses-the-gradient-at-the-returned-point', [stopped_on_tol],
-                       z3.And(*[last[1][j] == wl[j] - GR[j](*fw) / Lc for j in range(2)], last[2] == 1 / Lc)))
+            cs.append(('stop_crit<tol=>fixed-point-residual-of-the-returned-w-with-the-last-gradient', [stopped_on_tol],
+                       z3.And(*[last[1][j] == wl[j] - gres[j] / Lc for j in range(2)], last[2] == 1 / Lc)))
         return cs
     check_contract(T, f'FISTA._solve[{opt_strategy},{"sparse" if sparse_X else "dense"}]', run, zpre([Lc > 0, tol > 0]), post,
                    strength='B', safety=False, replay=dict(fn='contracts.fista:replay', args=dict(opt_strategy=opt_strategy)))
